@@ -4,4 +4,6 @@ set -e
 cd /verif/govc
 export PATH=/opt/veriftools/go1.26.8/bin:$PATH GOTOOLCHAIN=local GOFLAGS=-mod=mod GOPROXY=off GOSUMDB=off
 mkdir -p /verif/bin /verif/out /verif/evidence
-go build -o /verif/bin/govc .
+# build beside the target and rename, so that a running govc is never overwritten in place
+go build -o /verif/bin/govc.new.$$ .
+mv -f /verif/bin/govc.new.$$ /verif/bin/govc
